@@ -18,6 +18,7 @@ from __future__ import annotations
 import fractions
 import itertools
 import math
+import re
 from typing import Any, Dict, List, Optional, Tuple
 
 import core
@@ -26,6 +27,7 @@ from core import sx
 F = fractions.Fraction
 
 CHAN_POOL = ['A', 'B', 'C', 'D', 'E', 'G']
+INT_CHAN_POOL = [0, 1, 2, 3, 4, 5]      # qupulse: ChannelID = Union[str, int]
 MEAS_POOL = ['m', 'n', 'o', 'w']
 POW2 = [F(1, 4), F(1, 2), F(1), F(2)]
 DECIMALS = [F(1, 10), F(3, 10), F(7, 10), F(12, 10), F(235, 100), F(5, 100), F(31, 10), F(2), F(17, 100), F(1)]
@@ -125,6 +127,33 @@ def _ident(pt):
     return pt.identifier if pt.identifier is not None else 'none'
 
 
+def chan_atom(c) -> str:
+    """the atom a channel id travels as: qupulse's `ChannelID = Union[str, int]`; string names are themselves,
+    the integer id k is the atom `#k` (distinct from every generated string name, distinct for distinct ints)"""
+    if isinstance(c, str):
+        return c
+    if isinstance(c, bool) or not hasattr(c, '__index__'):
+        raise core.MachineryError('channel id not transportable: %r' % (c,))
+    return '#%d' % int(c)
+
+
+def chan_of_atom(a: str):
+    """inverse of `chan_atom`"""
+    if isinstance(a, str) and re.fullmatch(r'#-?\d+', a):
+        return int(a[1:])
+    return a
+
+
+_c = chan_atom
+
+
+def cm_dict(case: dict) -> dict:
+    """top level channel mapping of a case as a dict (replay files carry it as a list of pairs when a channel id is
+    an integer: JSON object keys are strings)"""
+    cm = case.get('cm') or {}
+    return dict(cm) if isinstance(cm, dict) else {k: v for k, v in cm}
+
+
 def _meas_sx(pt):
     return [[name, expr_sx(b), expr_sx(l)] for name, b, l in pt.measurement_declarations]
 
@@ -148,10 +177,10 @@ def to_sx(pt) -> Any:
     t = type(pt)
     if t is ConstantPulseTemplate:
         return ['const', _ident(pt), expr_sx(pt._duration),
-                [[ch, expr_sx(v)] for ch, v in pt._amplitude_dict.items()], _meas_sx(pt)]
+                [[_c(ch), expr_sx(v)] for ch, v in pt._amplitude_dict.items()], _meas_sx(pt)]
     if t is qp.TablePT:
         return ['table', _ident(pt),
-                [[ch, [[expr_sx(e.t), expr_sx(e.v), _interp(e.interp)] for e in es]] for ch, es in pt.entries.items()],
+                [[_c(ch), [[expr_sx(e.t), expr_sx(e.v), _interp(e.interp)] for e in es]] for ch, es in pt.entries.items()],
                 _meas_sx(pt), _cons_sx(pt)]
     if t is qp.PointPT:
         entries = []
@@ -161,10 +190,10 @@ def to_sx(pt) -> Any:
             else:
                 items = list(e.v.underlying_expression.flat)
                 entries.append([expr_sx(e.t), [sympy_sx(i) for i in items], False, _interp(e.interp)])
-        return ['point', _ident(pt), list(pt._channels), entries, _meas_sx(pt), _cons_sx(pt)]
+        return ['point', _ident(pt), [_c(ch) for ch in pt._channels], entries, _meas_sx(pt), _cons_sx(pt)]
     if t is qp.FunctionPT:
         (ch,) = pt.defined_channels
-        return ['func', _ident(pt), ch, expr_sx(pt.duration), expr_sx(pt.expression), _meas_sx(pt), _cons_sx(pt)]
+        return ['func', _ident(pt), _c(ch), expr_sx(pt.duration), expr_sx(pt.expression), _meas_sx(pt), _cons_sx(pt)]
     if t is qp.SequencePT:
         return ['seq', _ident(pt), [to_sx(s) for s in pt.subtemplates], _meas_sx(pt), _cons_sx(pt)]
     if t is qp.RepetitionPT:
@@ -177,17 +206,17 @@ def to_sx(pt) -> Any:
         return ['map', _ident(pt), to_sx(pt.template),
                 [[k, expr_sx(v)] for k, v in pt.parameter_mapping.items()],
                 [[k, v] for k, v in pt.measurement_mapping.items()],
-                [[k, 'none' if v is None else v] for k, v in pt.channel_mapping.items()],
+                [[_c(k), 'none' if v is None else _c(v)] for k, v in pt.channel_mapping.items()],
                 _cons_sx(pt)]
     if t is ParallelChannelPulseTemplate:
-        return ['par', _ident(pt), to_sx(pt.template), [[ch, expr_sx(v)] for ch, v in pt.overwritten_channels.items()]]
+        return ['par', _ident(pt), to_sx(pt.template), [[_c(ch), expr_sx(v)] for ch, v in pt.overwritten_channels.items()]]
     if t is qp.AtomicMultiChannelPT:
         return ['amulti', _ident(pt), [to_sx(s) for s in pt.subtemplates],
                 'none' if pt._duration is None else expr_sx(pt._duration), _meas_sx(pt), _cons_sx(pt)]
     if t is ArithmeticPulseTemplate:
         pt_is_lhs = isinstance(pt.lhs, PulseTemplate)
         sc = pt._scalar
-        scs = ['d', [[ch, expr_sx(v)] for ch, v in sc.items()]] if isinstance(sc, dict) else ['u', expr_sx(sc)]
+        scs = ['d', [[_c(ch), expr_sx(v)] for ch, v in sc.items()]] if isinstance(sc, dict) else ['u', expr_sx(sc)]
         return ['arith', _ident(pt), to_sx(pt._pulse_template), pt._arithmetic_operator, scs, pt_is_lhs]
     if t is ArithmeticAtomicPulseTemplate:
         return ['aarith', _ident(pt), to_sx(pt.lhs), pt.arithmetic_operator, to_sx(pt.rhs), _meas_sx(pt)]
@@ -222,6 +251,41 @@ def build_shared(spec: dict):
         return build(spec)
     finally:
         _INTERN = None
+
+
+_REUSE: Optional[dict] = None
+
+
+def _caller_dict(kind: str, body, content: dict) -> dict:
+    """the dict object handed to a MappingPT constructor.  Normally a fresh literal.  While `build_reusing_dicts` is
+    active it is a *caller-owned* dict that is re-used the way user code does when it builds several renamed copies
+    in a loop (`mapping['m'] = 'shot_%d' % i; MappingPT(body, measurement_mapping=mapping)`): one dict object per
+    (kind of mapping, mapped names, names the body declares), its entries overwritten before every construction."""
+    if _REUSE is None:
+        return dict(content)
+    declared = {'pm': lambda: body.parameter_names, 'mm': lambda: body.measurement_names,
+                'cm': lambda: body.defined_channels}[kind]()
+    key = (kind, frozenset(content), frozenset(declared))
+    d = _REUSE.setdefault(key, {})
+    d.update(content)
+    return d
+
+
+def build_reusing_dicts(spec: dict):
+    """like `build` (on a spec tree without attached objects), with the parameter / measurement / channel mapping
+    dicts of the MappingPTs being caller-owned objects that are re-used for later constructions and overwritten
+    after the last one (the caller goes on using its dict).  A template is immutable: the result must behave like
+    the template `build` makes from fresh literals."""
+    global _REUSE
+    _REUSE = {}
+    try:
+        pt = build(strip(spec))
+        for (kind, _keys, _declared), d in _REUSE.items():
+            for i, k in enumerate(list(d)):
+                d[k] = {'pm': '0', 'mm': 'zz%d' % i, 'cm': 'Q%d' % i}[kind]
+        return pt
+    finally:
+        _REUSE = None
 
 
 def _kw(spec, *names):
@@ -260,13 +324,14 @@ def build(spec: dict):
         return qp.ForLoopPT(build(spec['body']), spec['idx'], tuple(spec['range']), **_kw(spec, 'id', 'meas', 'cons'))
     if k == 'map':
         kw = _kw(spec, 'id', 'cons')
+        body = build(spec['body'])
         if spec.get('pm') is not None:
-            kw['parameter_mapping'] = dict(spec['pm'])
+            kw['parameter_mapping'] = _caller_dict('pm', body, dict(spec['pm']))
         if spec.get('mm') is not None:
-            kw['measurement_mapping'] = dict(spec['mm'])
+            kw['measurement_mapping'] = _caller_dict('mm', body, dict(spec['mm']))
         if spec.get('cm') is not None:
-            kw['channel_mapping'] = {a: b for a, b in spec['cm']}
-        return qp.MappingPT(build(spec['body']), **kw)
+            kw['channel_mapping'] = _caller_dict('cm', body, {a: b for a, b in spec['cm']})
+        return qp.MappingPT(body, **kw)
     if k == 'par':
         return ParallelChannelPulseTemplate(build(spec['body']), dict(spec['over']), **_kw(spec, 'id'))
     if k == 'amulti':
@@ -341,7 +406,22 @@ class Env:
 
 
 class Gen:
-    def __init__(self, rng, max_depth=4, stream='dyadic', avoid_pf11=0.9, measure_p=0.45, drop_p=0.3, zero_p=0.0):
+    def __init__(self, rng, max_depth=4, stream='dyadic', avoid_pf11=0.9, measure_p=0.45, drop_p=0.3, zero_p=0.0,
+                 int_chan_p=0.0, plain_t_p=0.0, nest_wrap_p=0.0, typed_p=0.0, reuse_p=0.0):
+        # the last four switch on additional shapes (all off by default, the default stream is unchanged):
+        #   int_chan_p   probability that a case uses integer channel ids 0, 1, ... (and renamings 'A' <-> 0)
+        #   plain_t_p    probability that a FunctionPT's expression is the time variable itself
+        #   nest_wrap_p  probability that a sub-template of an atomic composite is a scalar ArithmeticPT around another
+        #                scalar ArithmeticPT / a MappingPT (`pt*a + b`, `1 - pt/2`, `2*MappingPT(pt, ...)`)
+        #   typed_p      probability that a case hands its parameter values over as numpy / TimeType scalars
+        #   reuse_p      probability that a case constructs its MappingPTs from caller-owned dicts that are re-used and
+        #                overwritten afterwards (`build_reusing_dicts`)
+        self.reuse_p = reuse_p
+        self.int_chan_p = int_chan_p
+        self.plain_t_p = plain_t_p
+        self.nest_wrap_p = nest_wrap_p
+        self.typed_p = typed_p
+        self.int_mode = False
         self.rng = rng
         self.max_depth = max_depth
         self.stream = stream
@@ -654,6 +734,8 @@ class Gen:
                 expr = '%s + t/2' % a
             else:
                 expr = '(%s)*(t + 1)' % a
+            if force_idx is None and self.plain_t_p and r.random() < self.plain_t_p:
+                expr = 't'          # evaluates to the sample time array itself
             spec = {'k': 'func', 'ch': chans[0], 'dur': ds, 'expr': expr, 'meas': self.measurements(env, dv),
                     'cons': self.constraints(env)}
         elif k == 'amulti':
@@ -665,6 +747,8 @@ class Gen:
                 sub = self.atom(g, env, common, force_idx if gi == 0 else None, allow_multi=True, depth=depth + 1)
                 if r.random() < 0.25:
                     sub = self.wrap_atomic(sub, g, env)
+                if self.nest_wrap_p and r.random() < self.nest_wrap_p:
+                    sub = self.wrap_nested(sub, g, env)
                 subs.append(sub)
             spec = {'k': 'amulti', 'subs': subs, 'meas': self.measurements(env, common[1]),
                     'cons': self.constraints(env)}
@@ -685,6 +769,11 @@ class Gen:
                 lhs = self.wrap_atomic(lhs, lc, env, mapping_only=True)
             if r.random() < 0.3:
                 rhs = self.wrap_atomic(rhs, rc, env, mapping_only=True)
+            if self.nest_wrap_p and r.random() < self.nest_wrap_p:
+                if r.random() < 0.5:
+                    lhs = self.wrap_nested(lhs, lc, env)
+                else:
+                    rhs = self.wrap_nested(rhs, rc, env)
             # PF-13 (C03): ArithmeticAtomicPT.parameter_names omits its own measurement parameters, so its
             # declarations use literals only here
             spec = {'k': 'aarith', 'lhs': lhs, 'op': r.choice(['+', '-']), 'rhs': rhs,
@@ -721,6 +810,26 @@ class Gen:
         mm = [[n, r.choice(MEAS_POOL + ['x', 'y'])] for n in sorted(pt.measurement_names) if r.random() < 0.4]
         return {'k': 'map', 'body': sub, 'pm': [[k, v] for k, v in pm.items()] if pm else None, 'mm': mm or None,
                 'cm': None}
+
+    def wrap_nested(self, sub: dict, chans, env) -> dict:
+        """a scalar ArithmeticPT whose pulse operand is itself a scalar ArithmeticPT or a MappingPT (atomic as long
+        as `sub` is): `pt*a + b`, `1 - pt/2`, `2*MappingPT(pt, ...)`"""
+        r = self.rng
+        if r.random() < 0.5:
+            op = r.choice(['*', '/', '+', '-'])
+            inner = {'k': 'arith', 'body': sub, 'op': op,
+                     'scalar': fstr(r.choice([F(1, 2), F(2), F(-1), F(4)])) if op in '*/' else self.volt(env)[0],
+                     'pt_lhs': True if op == '/' else r.random() < 0.5}
+        else:
+            inner = self.wrap_atomic(sub, chans, env, mapping_only=True)
+        return {'k': 'arith', 'body': inner, 'op': r.choice(['+', '-', '*']), 'scalar': self.volt(env)[0],
+                'pt_lhs': r.random() < 0.5}
+
+    def chan_pool(self) -> list:
+        """names a MappingPT may give the channels of its body"""
+        if self.int_mode and self.rng.random() < 0.5:
+            return list(INT_CHAN_POOL)
+        return list(CHAN_POOL)
 
     # -- composite -------------------------------------------------------------------------------------
     def template(self, depth: int, chans: List[str], env: Env, force_idx=None, under_trafo=False) -> dict:
@@ -786,7 +895,7 @@ class Gen:
     def mapping(self, d, chans, env: Env, force_idx, under_trafo) -> dict:
         r = self.rng
         # channels: inner names -> outer names (a bijection onto `chans`), extra inner channels are dropped
-        pool = [c for c in CHAN_POOL]
+        pool = self.chan_pool() if self.int_mode else [c for c in CHAN_POOL]
         r.shuffle(pool)
         k = r.random()
         if k < 0.4:
@@ -859,6 +968,51 @@ def strip(spec):
     return spec
 
 
+PTYPE_TAGS = ('int', 'float', 'i64', 'f64', 'tt')
+
+
+def draw_ptypes(rng, params: Dict[str, Any], time_like=lambda name: name[:1] in ('d', 'T')) -> Dict[str, str]:
+    """how the parameter values are handed to qupulse: python int / float (default), numpy.int64, numpy.float64 or
+    (time-like parameters only) TimeType.  The value a number stands for does not depend on its type: a float of
+    either kind means its shortest decimal representation (`num_frac`)."""
+    out = {}
+    for k, v in params.items():
+        if isinstance(v, int):
+            tag = rng.choice(['int', 'i64', 'i64', 'tt' if time_like(k) else 'i64'])
+        else:
+            tag = rng.choice(['float', 'f64', 'f64', 'tt' if time_like(k) else 'f64'])
+        if tag not in ('int', 'float'):
+            out[k] = tag
+    return out
+
+
+def typed_params(case: dict) -> Dict[str, Any]:
+    """the parameter values of a case as the objects handed to `create_program`"""
+    params = dict(case['params'])
+    tags = case.get('ptypes') or {}
+    if tags:
+        import numpy
+        from qupulse.utils.types import TimeType
+        for k, tag in tags.items():
+            if k not in params:
+                continue
+            v = params[k]
+            if tag == 'f64':
+                params[k] = numpy.float64(v)
+            elif tag == 'i64':
+                params[k] = numpy.int64(v)
+            elif tag == 'tt':
+                f = num_frac(v)
+                params[k] = TimeType.from_fraction(f.numerator, f.denominator)
+            elif tag == 'float':
+                params[k] = float(v)
+            elif tag == 'int':
+                params[k] = int(v)
+            else:
+                raise core.MachineryError('unknown parameter type tag %r' % tag)
+    return params
+
+
 def random_case(rng, max_depth=4, stream='dyadic', **kw) -> dict:
     """One well-formed case: spec tree + parameter values + top-level channel / measurement mappings."""
     g = Gen(rng, max_depth, stream, **kw)
@@ -866,6 +1020,9 @@ def random_case(rng, max_depth=4, stream='dyadic', **kw) -> dict:
         env, values = g.params()
         n_ch = rng.choice([1, 1, 2, 2, 3])
         chans = CHAN_POOL[:n_ch]
+        g.int_mode = bool(g.int_chan_p) and rng.random() < g.int_chan_p
+        if g.int_mode:
+            chans = INT_CHAN_POOL[:n_ch] if rng.random() < 0.7 else CHAN_POOL[:n_ch]
         depth = rng.randrange(1, max_depth + 1) if rng.random() < 0.4 else max_depth
         try:
             spec = g.template(depth, chans, env)
@@ -874,9 +1031,9 @@ def random_case(rng, max_depth=4, stream='dyadic', **kw) -> dict:
             continue
         # top level channel mapping: rename / drop, injective
         cm = {}
-        defined = sorted(pt.defined_channels)
+        defined = sorted(pt.defined_channels, key=chan_atom)
         if rng.random() < 0.35:
-            targets = ['X', 'Y', 'Z', 'W', 'V', 'U']
+            targets = [10, 11, 12, 'X', 'Y', 'Z'] if g.int_mode else ['X', 'Y', 'Z', 'W', 'V', 'U']
             rng.shuffle(targets)
             for c, t in zip(defined, targets):
                 k = rng.random()
@@ -893,7 +1050,12 @@ def random_case(rng, max_depth=4, stream='dyadic', **kw) -> dict:
                 mm[n] = None if k < 0.3 else (n if k < 0.7 else rng.choice(['p', 'r']))
         used = pt.parameter_names
         params = {k: v for k, v in values.items() if k in used or rng.random() < 0.2}
-        return {'spec': spec, 'params': params, 'cm': cm, 'mm': mm, 'single': []}
+        case = {'spec': spec, 'params': params, 'cm': cm, 'mm': mm, 'single': []}
+        if g.typed_p and rng.random() < g.typed_p:
+            case['ptypes'] = draw_ptypes(rng, params)
+        if g.reuse_p and rng.random() < g.reuse_p:
+            case['reuse'] = True
+        return case
     raise core.MachineryError('generator failed to draw a well-formed template')
 
 
@@ -1168,6 +1330,58 @@ def leaf_channel_sets(loop) -> List[frozenset]:
     return out
 
 
+def _leaves(loop, out: list, cap: int):
+    if len(out) >= cap:
+        return
+    if loop.is_leaf():
+        if loop.waveform is not None and not any(loop.waveform is w for w in out):
+            out.append(loop.waveform)
+    else:
+        for c in loop:
+            _leaves(c, out, cap)
+
+
+def _leafwise_shared_grid(prog, max_leaves=6, max_points=16) -> Optional[dict]:
+    """What a hardware driver does: every played waveform is sampled channel after channel on ONE time array.
+    Sampling a channel on the shared array (after the other channels) and on a private copy of the same times must
+    give the same voltages, and the shared array must come back unchanged.  Returns the first discrepancy."""
+    import numpy as np
+    leaves: list = []
+    _leaves(prog, leaves, max_leaves)
+    for li, wf in enumerate(leaves):
+        chans = sorted(wf.defined_channels, key=chan_atom)
+        if len(chans) < 2:
+            continue
+        d = float(wf.duration)
+        n = min(max_points, max(2, int(d * 4)))
+        shared = np.arange(n, dtype=float) * (d / n)
+        pristine = shared.copy()
+        for ch in chans:
+            # (the shared array first: a TransformingWaveform caches by the values of the sample times)
+            failed = None
+            try:
+                got = np.array(wf.get_sampled(ch, shared), dtype=float)
+            except Exception as exc:  # noqa
+                failed = core.classify_exception(exc)
+            try:
+                want = np.array(wf.get_sampled(ch, pristine.copy()), dtype=float)
+            except Exception:  # noqa -- cannot be sampled at all: not a matter of the shared array
+                break
+            if failed is not None:
+                return {'leaf': li, 'channel': chan_atom(ch), 'raises': failed,
+                        'after': [chan_atom(c) for c in chans[:chans.index(ch)]]}
+            same = np.array_equal(got, want, equal_nan=True)
+            if not same or not np.array_equal(shared, pristine):
+                bad = np.flatnonzero(~((got == want) | (np.isnan(got) & np.isnan(want)))) if not same \
+                    else np.flatnonzero(shared != pristine)
+                i = int(bad[0])
+                return {'leaf': li, 'channel': chan_atom(ch), 'after': [chan_atom(c) for c in chans[:chans.index(ch)]],
+                        't': F(float(pristine[i])), 'shared': None if same else str(F(float(got[i]))),
+                        'private': None if same else str(F(float(want[i]))),
+                        'time_now': str(F(float(shared[i]))) if shared[i] != pristine[i] else None}
+    return None
+
+
 def observe(case: dict, rng=None, grid: Optional[List[F]] = None, want_samples=True, want_windows=True) -> dict:
     """Run the real code on one case. Returns {'pt', 'sx', 'impl': observables, 'grid'}."""
     import numpy as np
@@ -1175,20 +1389,25 @@ def observe(case: dict, rng=None, grid: Optional[List[F]] = None, want_samples=T
     from qupulse.program.loop import to_waveform
     rng = rng or random.Random(0)
     pt = build_shared(case['spec']) if case.get('share') else build(case['spec'])
+    # 'pt' is what the model is told about: the template as written.  With 'reuse' the template that is instantiated
+    # was constructed from caller-owned mapping dicts that were re-used and overwritten afterwards.
     out: Dict[str, Any] = {'pt': pt}
-    params = dict(case['params'])
+    if case.get('reuse'):
+        pt = build_reusing_dicts(case['spec'])
+    params = typed_params(case)
     kwargs: Dict[str, Any] = {'parameters': params}
     if case.get('cm'):
-        kwargs['channel_mapping'] = dict(case['cm'])
+        kwargs['channel_mapping'] = cm_dict(case)
     if case.get('mm') is not None:
         kwargs['measurement_mapping'] = dict(case['mm'])
     if case.get('single'):
         kwargs['to_single_waveform'] = set(case['single'])
     impl: Dict[str, Any] = {}
     # template duration (C04): evaluated numerically before the program is created, or after it ('tdur_after')
+    # (with plain python numbers: the float evaluation of a symbolic duration is not made for TimeType / numpy scalars)
     def _tdur():
         try:
-            td = pt.duration.evaluate_in_scope(dict(params))
+            td = pt.duration.evaluate_in_scope(dict(case['params']))
             return ('ok', num_frac(td), exact_frac(td))
         except Exception as exc:  # noqa
             return ('error', core.classify_exception(exc))
@@ -1217,7 +1436,7 @@ def observe(case: dict, rng=None, grid: Optional[List[F]] = None, want_samples=T
     impl['pieces'] = pieces_sum(prog)
     sets = leaf_channel_sets(prog)
     uniform = all(s == sets[0] for s in sets)
-    impl['chans'] = sorted(sets[0]) if uniform else 'nonuniform'
+    impl['chans'] = sorted(chan_atom(c) for c in sets[0]) if uniform else 'nonuniform'
     try:
         wf = to_waveform(prog)
         impl['wfdur'] = num_frac(wf.duration)
@@ -1229,13 +1448,23 @@ def observe(case: dict, rng=None, grid: Optional[List[F]] = None, want_samples=T
     out['grid'] = grid
     samples: Dict[str, Any] = {}
     if want_samples and wf is not None and uniform and grid:
+        # ONE sample-time array for all channels (what plotting.render and the hardware drivers do); it has to
+        # come back unchanged
         times = np.array([float(t) for t in grid], dtype=float)
-        for ch in impl['chans']:
+        pristine = times.copy()
+        for ch in sorted(sets[0], key=chan_atom):
+            a = chan_atom(ch)
             try:
                 arr = wf.get_sampled(ch, times)
-                samples[ch] = ['nan' if math.isnan(x) else F(float(x)) for x in arr]
+                samples[a] = ['nan' if math.isnan(x) else F(float(x)) for x in arr]
             except Exception as exc:  # noqa
-                samples[ch] = 'error:' + core.classify_exception(exc)
+                samples[a] = 'error:' + core.classify_exception(exc)
+            if 'grid_modified' not in impl and not np.array_equal(times, pristine):
+                i = int(np.flatnonzero(times != pristine)[0])
+                impl['grid_modified'] = {'channel': a, 'index': i, 't': F(float(pristine[i])), 'now': F(float(times[i]))}
+        shared = _leafwise_shared_grid(prog)
+        if shared:
+            impl['shared_grid'] = shared
     impl['samples'] = samples
     if want_windows:
         try:
@@ -1258,7 +1487,7 @@ def request_line(pid: str, pt, case: dict, grid: List[F], skip=()) -> str:
               ['pt', to_sx(pt)],
               ['params'] + [[k, num_frac(v)] for k, v in case['params'].items()],
               ['mm', 'none'] if mm is None else ['mm'] + [[k, 'none' if v is None else v] for k, v in mm.items()],
-              ['cm'] + [[k, 'none' if v is None else v] for k, v in (case.get('cm') or {}).items()],
+              ['cm'] + [[chan_atom(k), 'none' if v is None else chan_atom(v)] for k, v in cm_dict(case).items()],
               ['single'] + list(case.get('single') or []),
               ['grid'] + list(grid)]
     if skip:
@@ -1317,6 +1546,14 @@ def parse_reply(ans) -> dict:
 
 def case_json(case: dict) -> dict:
     """JSON-able form of a case (for replay files and the corpus)"""
-    return {'spec': strip(case['spec']), 'params': {k: (v if isinstance(v, int) else float(v)) for k, v in case['params'].items()},
-            'cm': case.get('cm') or {}, 'mm': case.get('mm'), 'single': list(case.get('single') or []),
-            'fault': case.get('fault'), 'share': bool(case.get('share')), 'tdur_after': bool(case.get('tdur_after'))}
+    cm = cm_dict(case)
+    if any(not isinstance(k, str) for k in cm):
+        cm = [[k, v] for k, v in cm.items()]       # JSON object keys are strings: integer channel ids travel in pairs
+    out = {'spec': strip(case['spec']), 'params': {k: (v if isinstance(v, int) else float(v)) for k, v in case['params'].items()},
+           'cm': cm, 'mm': case.get('mm'), 'single': list(case.get('single') or []),
+           'fault': case.get('fault'), 'share': bool(case.get('share')), 'tdur_after': bool(case.get('tdur_after'))}
+    if case.get('ptypes'):
+        out['ptypes'] = dict(case['ptypes'])
+    if case.get('reuse'):
+        out['reuse'] = True
+    return out
